@@ -321,6 +321,17 @@ open Pyr.Gen.C12 in
 theorem gen_view_rows : viewRows.all viewRowOk = true := by decide +kernel
 
 open Pyr.Gen.C12 in
+/-- The verdict does not depend on the OTHER options of the view: 560 WSGI requests through real applications whose view was
+registered through `add_view` without and with each of `request_method` (single / tuple, incl. only RFC-safe methods under
+custom `safe_methods`), `xhr`, `name` instead of `route_name`, `attr`, `decorator`, `renderer`, `permission`, `http_cache`,
+`wrapper`, `mapper` — each carries the outcome the model computes from (enabled, safe_methods, callback, method, token,
+origin) alone; every listed option occurs in the table. -/
+theorem gen_view_option_rows :
+    optRows.all optRowOk = true ∧ extraViewOptions.all (fun o => optRows.any fun r => r.opt == o) = true ∧
+      extraViewOptions.length = 13 := by
+  refine ⟨by decide +kernel, by decide +kernel, by decide⟩
+
+open Pyr.Gen.C12 in
 /-- `check_csrf_origin` — 192 probed calls, incl. omitted arguments, the caller's list and the settings list afterwards -/
 theorem gen_origin_rows : originRows.all originRowOk = true := by decide +kernel
 
